@@ -202,16 +202,20 @@ Apply(c, kind, id) ==
     [] Variant = "obj-evaluates" /\ f = "obj"           -> [d EXCEPT !.evals = d.evals + 1, !.fcalls = d.fcalls + 1]
     [] OTHER -> d
 
-(* the scripts explored: the calls write distinct slots ("same settings"); SetMapper exists on DE2 only;     *)
-(* the statement's premise "same initial population / same seed" is honoured by keeping drawing calls out   *)
-(* of scripts whose [Seed; Init] unit is strictly inside the call sequence; limits relative to the          *)
-(* counters (new=True) are not combined with a monitor swap that resets those counters.                     *)
+(* the scripts explored (premises of the statement):                                                        *)
+(*   "same settings": the calls of a script write distinct slots; SetMapper exists on DE2 only; a reducer   *)
+(*     is installed before the (vector-valued) cost is first evaluated; limits relative to the counters     *)
+(*     (new=True) are not combined with a monitor swap that resets those counters on a live solver;         *)
+(*   "same seed, same initial population": calls that draw random numbers are kept out of scripts whose     *)
+(*     [Seed; Init] unit is strictly inside the call sequence.                                              *)
+(* Variant = "premise-dropped-relative-limits" / "premise-dropped-draws" lift the last two: TLC then        *)
+(* refutes Confluent.                                                                                       *)
 Admissible(S, kind, pre, at) ==
   /\ \A i, j \in S : i # j => Fam(i) # Fam(j)
   /\ 13 \in S => kind = "DE2"
-  /\ Variant # "premise-dropped" =>
-       /\ (at \notin {0, K}) => \A i \in S : Draws(i) = 0
-       /\ ~(pre = 1 /\ 3 \in S /\ 17 \in S)
+  /\ 10 \in S => pre = 0                    \* a reducer comes with the vector-valued cost: before the first evaluation
+  /\ Variant # "premise-dropped-draws" => ((at \notin {0, K}) => \A i \in S : Draws(i) = 0)
+  /\ Variant # "premise-dropped-relative-limits" => ~(pre = 1 /\ 3 \in S /\ 17 \in S)
 
 RECURSIVE Asc(_)
 Asc(S) == IF S = {} THEN << >> ELSE LET x == CHOOSE v \in S : \A w \in S : v <= w IN <<x>> \o Asc(S \ {x})
